@@ -16,7 +16,7 @@ from concurrent.futures import ThreadPoolExecutor
 VERIF = os.path.dirname(os.path.dirname(os.path.dirname(os.path.abspath(__file__))))
 HARNESS = os.path.join(VERIF, 'harness')
 CACHE = os.path.join(VERIF, 'build', 'cache')
-CACHE_CAP_BYTES = 6 << 30
+CACHE_CAP_BYTES = 12 << 30
 
 
 def repo_root():
@@ -80,10 +80,25 @@ def build(cfg, source, defs=(), extra=(), libs=(), expect_failure_ok=False):
         return _build_locked(cfg, source, defs, tail, outdir, exe)
 
 
-def _build_locked(cfg, source, defs, tail, outdir, exe):
-    if os.path.exists(exe):
-        os.utime(outdir, None)
-        return exe
+def _pp_key(tail):
+    """Second-level key: the preprocessed translation unit (no line markers, so no paths) plus every flag that is
+    not an include path.  A header edit inside a preprocessor arm this configuration does not select leaves it
+    unchanged, so the binary built from another tree is reused.  None if preprocessing fails (the compile will
+    report the error)."""
+    cmd = [a for a in tail if not a.startswith('-Wl,')] + ['-E', '-P']
+    try:
+        p = subprocess.run(cmd, stdout=subprocess.PIPE, stderr=subprocess.DEVNULL, timeout=600)
+    except Exception:
+        return None
+    if p.returncode != 0:
+        return None
+    h = hashlib.sha256()
+    h.update(p.stdout)
+    h.update('\0'.join(os.path.basename(a) if a.startswith('/') else a for a in tail if not a.startswith('-I')).encode())
+    return 'pp_' + h.hexdigest()[:32]
+
+
+def _compile_into(cfg, source, defs, tail, outdir):
     tmpdir = outdir + '.tmp%d_%d' % (os.getpid(), threading.get_ident())
     os.makedirs(tmpdir, exist_ok=True)
     cmd = tail + ['-o', os.path.join(tmpdir, 'drv')]
@@ -98,7 +113,34 @@ def _build_locked(cfg, source, defs, tail, outdir, exe):
         os.rename(tmpdir, outdir)
     except OSError:
         shutil.rmtree(tmpdir, ignore_errors=True)   # another process won the race
-    return exe
+
+
+def _build_locked(cfg, source, defs, tail, outdir, exe):
+    if os.path.exists(exe):
+        os.utime(outdir, None)
+        return exe
+    ppk = _pp_key(tail)
+    if ppk is None:
+        _compile_into(cfg, source, defs, tail, outdir)
+        return exe
+    ppdir = os.path.join(CACHE, ppk)
+    ppexe = os.path.join(ppdir, 'drv')
+    if not os.path.exists(ppexe):
+        _compile_into(cfg, source, defs, tail, ppdir)
+    else:
+        os.utime(ppdir, None)
+    # first-level entry (tree hash) -> the binary of the preprocessed unit
+    tmpdir = outdir + '.tmp%d_%d' % (os.getpid(), threading.get_ident())
+    os.makedirs(tmpdir, exist_ok=True)
+    try:
+        try:
+            os.link(ppexe, os.path.join(tmpdir, 'drv'))
+        except OSError:
+            shutil.copy2(ppexe, os.path.join(tmpdir, 'drv'))
+        os.rename(tmpdir, outdir)
+    except OSError:
+        shutil.rmtree(tmpdir, ignore_errors=True)
+    return exe if os.path.exists(exe) else ppexe
 
 
 def build_many(jobs, workers=16):
